@@ -32,15 +32,17 @@ Definition entBytes : nat := Z.to_nat pgEntSize.
 Definition zeroEntry : entry := repeat 0%N entBytes.
 
 (** the [readEntry] lambda: seek to [entNo * entSize], read 16 bytes; when the stream is not good
-    afterwards (short read, negative offset, unopened file) the whole entry is zero-filled *)
+    afterwards (seek to a negative offset, fewer than 16 bytes left, unopened file) the whole entry
+    is zero-filled *)
 Definition readEntry (f : bookFile) (entNo : Z) : entry :=
   match f with
   | None => zeroEntry
   | Some b =>
       let offs := entNo * pgEntSize in
-      if (0 <=? offs) && (offs + pgEntSize <=? Z.of_nat (length b))
-      then firstn entBytes (skipn (Z.to_nat offs) b)
-      else zeroEntry
+      if offs <? 0 then zeroEntry
+      else
+        let got := firstn entBytes (skipn (Z.to_nat offs) b) in
+        if (length got =? entBytes)%nat then got else zeroEntry
   end.
 
 (** * Entry codec *)
